@@ -187,8 +187,8 @@ def run(chk: Check):
     for j, (R, wt, nelec, o, blk, nbl, eql) in enumerate(mr):
         nw = 4
         mk = lambda r, wt=wt, nelec=nelec, j=j: runlevel.make_system(np.random.default_rng(880 + j + chk.seed), norb=4, nelec=nelec,
-                                                                    nchol=3, trial_kind=wt, walker_type=wt, n_walkers=nw, dt=0.08,
-                                                                    vscale=0.5)
+                                                                    nchol=3, trial_kind=wt, walker_type=wt, n_walkers=nw, dt=0.05,
+                                                                    vscale=0.4)
         opts = runlevel.default_options(seed=23 + j + chk.seed, n_eql=eql[0], n_ene_blocks_eql=eql[1], n_sr_blocks_eql=eql[2], **o)
         ev, rr, world = ranks.run_driver_ranks(chk, R, mk, opts, blk, nbl, name=f"mr{j}")
         rec, inf = ranks.analyse(ev, rr, world, R, nw)
@@ -226,6 +226,7 @@ def run(chk: Check):
                               f"(rank {v['bad_rank']}, collective #{v['at']}, expected {v['expected']}; {inf['describe']})",
                               {"ranks": R, "options": o, "verdict": v})
         chk.note("walkers_moved_across_ranks", sum(m[4]["moved_across_ranks"] for m in rmeta.values()))
+        chk.note("multirank_runs_with_extinct_population", sum(1 for m in rmeta.values() if m[4]["degenerate"]))
     # ---------------------------------------------------------------- spec -> code: schedule replay
     reqs, cases = [], []
     combos = [("none", True, True, (2, 2, 2)), ("forward", True, True, (2, 1, 2)), ("forward", False, True, (3, 2, 1)),
